@@ -22,6 +22,9 @@ type c01Case struct {
 	Digits   int          `json:"digits"` // 0..255
 	Algo     int          `json:"algo"`   // 0..255
 	NilParam bool         `json:"nil_param"`
+	// parameter fields HOTP generation does not use: the code must not depend on them (omitted = 0)
+	Skew   uint64 `json:"skew,omitempty"`
+	Period uint64 `json:"period,omitempty"`
 }
 
 func counterClass(c uint64) string {
@@ -59,13 +62,19 @@ func checkC01(c c01Case) verdict {
 	if c.NilParam {
 		digits, algo = 6, 0
 	} else {
-		param = &otp.Param{Digits: otp.Digits(c.Digits), Algorithm: otp.Algorithm(c.Algo)}
+		param = &otp.Param{Digits: otp.Digits(c.Digits), Algorithm: otp.Algorithm(c.Algo), Skew: uint(c.Skew), Period: uint(c.Period)}
 	}
 	got, err := otp.GenerateHOTP(secret, c.Counter, param)
 	supported := digits >= 1 && digits <= 10 && algo >= 0 && algo <= 2
 	labels := []string{counterClass(c.Counter), keyClass(len(c.Key))}
 	if c.NilParam {
 		labels = append(labels, "nilparam")
+	}
+	if !c.NilParam && (c.Skew != 0 || c.Period != 0) {
+		labels = append(labels, "unused-param-fields-set")
+		if c.Skew > 10 {
+			labels = append(labels, "skew>10")
+		}
 	}
 	if !supported {
 		labels = append(labels, "unsupported")
@@ -118,6 +127,15 @@ func genC01(t *rapid.T) c01Case {
 	default:
 		c.Digits = gen.Digits().Draw(t, "digits")
 		c.Algo = rapid.IntRange(0, 2).Draw(t, "algo")
+	}
+	// the fields generation ignores: a window (also one validation would refuse) and a period, in a third of the cases
+	if !c.NilParam && rapid.IntRange(0, 2).Draw(t, "unusedQ") == 0 {
+		if rapid.Bool().Draw(t, "skewSmall") {
+			c.Skew = uint64(rapid.IntRange(0, 10).Draw(t, "skew"))
+		} else {
+			c.Skew = gen.RefusedSkew(t)
+		}
+		c.Period = rapid.SampledFrom([]uint64{0, 30, 1, 60, 1 << 32, ^uint64(0)}).Draw(t, "period")
 	}
 	return c
 }
